@@ -14,15 +14,17 @@ EXPLANATION = (
 
 
 def run(e, R, tier):
-    B.r_waitset(e, R)
-    B.r_broken_paths(e, R)
-    B.r_broken_dispatch(e, R)
-    B.r_broken_order(e, R)
-    B.r_submit_gate(e, R)
-    B.r_exc_types(e, R)
-    B.r_kill_tree(e, R)
-    B.r_worker_unpickle(e, R)
-    L.r_wake(e, R)
-    L.r_own_resolve(e, R)
-    L.r_drop_resolves(e, R)
+    R.run_rules(e, [
+        B.r_waitset,
+        B.r_broken_paths,
+        B.r_broken_dispatch,
+        B.r_broken_order,
+        B.r_submit_gate,
+        B.r_exc_types,
+        B.r_kill_tree,
+        B.r_worker_unpickle,
+        L.r_wake,
+        L.r_own_resolve,
+        L.r_drop_resolves,
+    ])
     R.trust("multiprocessing.connection.wait returns the ready subset; Process.sentinel becomes ready when the process ends")
